@@ -581,20 +581,42 @@ def check_refcounter(ck, tu):
     accesses = [x for x in accesses if x["id"] not in in_assert]
     okd = False
     why = "dec_reference does not decide on the result of its own atomic decrement"
+    def through_locals(e, depth=0):
+        """the expression a never-reassigned local stands for"""
+        e = strip_casts(e)
+        while e is not None and e["k"] == "ParenExpr":
+            e = strip_casts(kids(e)[0])
+        d = ref_of(e) if e is not None else None
+        if d is not None and depth < 4:
+            for v in ir.walk(dec.body):
+                if v["k"] == "VarDecl" and v.get("did") == d and kids(v) and kids(v)[0] is not None:
+                    reassigned = any(match.binop(z, ("=", "+=", "-=")) and ref_of(match.binop(z, ("=", "+=", "-="))[1]) == d
+                                     for z in ir.walk(dec.body) if z["k"] in ("BinaryOperator", "CompoundAssignOperator"))
+                    if not reassigned:
+                        return through_locals(kids(v)[0], depth + 1)
+        return e
     if len(rets) == 1 and len(rmws) == 1 and len(accesses) == 1:
-        e = kids(rets[0])[0]
+        e = through_locals(kids(rets[0])[0])
         b = match.binop(e, ("==",))
         node, (kind, order, amt) = rmws[0]
-        if b and strip_casts(b[1]) is node and amt == 1:
-            if kind in ("operator--", "operator-=") and const_int(b[2]) == 0:
-                okd = True
-            elif kind in ("fetch_sub", "operator--(post)") and const_int(b[2]) == 1:
-                okd = True
-            else:
-                why = "the result of %s is compared with %s" % (kind, const_int(b[2]))
-            if okd and (order is None or order < 4):
-                okd = False
-                why = "decrement uses memory order %s, needs acq_rel or stronger" % ORDERS.get(order, "?")
+        sides = None
+        if b:
+            l, r = through_locals(b[1]), through_locals(b[2])
+            if l is node:
+                sides = r
+            elif r is node:
+                sides = l
+        if sides is None or amt != 1 or const_int(sides) is None:
+            raise dtable.Undecidable("%s: form of the release decision not understood: %s" % (dec.loc, dtable.describe(kids(rets[0])[0])))
+        if kind in ("operator--", "operator-=") and const_int(sides) == 0:
+            okd = True
+        elif kind in ("fetch_sub", "operator--(post)") and const_int(sides) == 1:
+            okd = True
+        else:
+            why = "the result of %s is compared with %s" % (kind, const_int(sides))
+        if okd and (order is None or order < 4):
+            okd = False
+            why = "decrement uses memory order %s, needs acq_rel or stronger" % ORDERS.get(order, "?")
     elif len(accesses) > 1:
         why = "the release decision re-reads reference_count_ after the decrement (not the RMW's own result): two releasing threads can both see zero"
     if okd:
